@@ -133,7 +133,11 @@ func TestVFReplay(t *testing.T) {
 	}
 	cmd := exec.Command("sh", "-c", sh)
 	cmd.Dir = opt.Repo
-	cmd.Env = append(os.Environ(), "GOFLAGS=-mod=mod -modfile="+modfile, "GOPROXY=off", "GOSUMDB=off", "GOTOOLCHAIN=local", "GOWORK=off", "VF_REPLAY="+replayPath)
+	// temp files and directories the harness creates natively (logs, WAL and snapshot directories with
+	// preallocated 64 MB segments) live under the replay's scratch directory and go away with it
+	tmpd := filepath.Join(scratch, "tmp")
+	os.MkdirAll(tmpd, 0o755)
+	cmd.Env = append(os.Environ(), "TMPDIR="+tmpd, "GOFLAGS=-mod=mod -modfile="+modfile, "GOPROXY=off", "GOSUMDB=off", "GOTOOLCHAIN=local", "GOWORK=off", "VF_REPLAY="+replayPath)
 	var out bytes.Buffer
 	cmd.Stdout = &out
 	cmd.Stderr = &out
